@@ -224,7 +224,15 @@ func execC14Bubble(r *kernel.Run, s C14Spec) {
 	}
 	context := big.NewInt(1)
 	if !s.ContextOne {
-		context = randBits(w.hr, 200)
+		// mostly a random context; sometimes another small one (0 is a value, not "absent")
+		switch w.hr.IntN(6) {
+		case 0:
+			context = big.NewInt(0)
+		case 1:
+			context = big.NewInt(2)
+		default:
+			context = randBits(w.hr, 200)
+		}
 	}
 	r.Logf("keys=%v participate=%v builders=%d sig=%v ctx1=%v", s.Keys, s.Participate, len(s.Builders), s.IsSig, s.ContextOne)
 
